@@ -963,6 +963,6 @@ func main() {
 		Rule: "(pair) library dialer <-> library upgrader (ws.Upgrader, and ws.HTTPUpgrader behind net/http) over an in-memory duplex, two goroutines, configurations = 8 protocol lists (incl. names differing only in case, prefixes of each other) x 6 selectors (incl. exactly the last / second offered name) x 5 extension offers x 10 extension selectors/negotiators (incl. servers answering with the bare name, with the offer's first parameter only, with parameters of their own) x I/O buffer sizes {0,16,17,64,256,4096} on each side x read limiters {none,1,2,13,random} x extra header lines of length buf-2..buf+2 and 3*buf: both succeed with equal protocol/extensions or both fail. " +
 			"(single peer) the same request / response derivation run under 5 chunk plans and buffer sizes must give identical outcome, handshake data and bytes written (dialer requests compared with the random key masked). (debug wrappers) DebugUpgrader / DebugDialer with each callback combination vs the unwrapped run: same outcome and data, callbacks get exactly the bytes exchanged, post-handshake bytes preserved, each DebugDialer value used for three dials in a row with and without an application WrapConn, one case in five over wss:// (the library's TLS client against a crypto/tls server on an in-memory duplex: the callbacks must see the HTTP exchange, not TLS records); responses: valid 101 with trailing frames {0,1,100,5000}, non-101 with bodies, invalid 101, LF-only, empty/truncated. distinct = configuration classes.",
 		Assumptions: []string{"a pair stuck for 60 s is inconclusive, not a violation", "requests that net/http itself refuses are not sent through DebugUpgrader"},
-		Subs:        []mon.Sub{subPairs(), subUpgraderChunking(), subDialerChunking(), subDebugUpgrader(), subDebugDialer()},
+		Subs:        []mon.Sub{subPairs(), subUpgraderChunking(), subDialerChunking(), subDebugUpgrader(), subDebugDialer(), subDebugWriteFault()},
 	})
 }
